@@ -331,11 +331,27 @@ func (f *rFilter) satSelf(v any) bool {
 
 // sat: an array value satisfies the filter when one of its elements does (the documented way to filter on `type`)
 // or when the array itself validates against the filter.
+//
+// A filter WITHOUT `type` is decided on one side only. pe documents the vocabulary it supports as typed filters, so
+// whether a value that fits the remaining keywords has to be selected is not decided here ("filter-without-type"). But a
+// value that violates one of the keywords that are there (const, enum, or - for a string - pattern), as the value itself
+// and in every element, satisfies the filter under no reading of it (JSON Schema: `type` is optional and the other
+// keywords keep constraining the value; typed-vocabulary reading: nothing satisfies it): that is a decided "no".
 func (f *rFilter) sat(v any) (bool, unspecified) {
+	ok, u := f.satAny(v)
+	if u != "" {
+		return false, u
+	}
 	if !f.HasType {
-		// pe documents the filter vocabulary it supports as typed filters; a filter without `type` is outside it
+		if !ok {
+			return false, ""
+		}
 		return false, "filter-without-type"
 	}
+	return ok, ""
+}
+
+func (f *rFilter) satAny(v any) (bool, unspecified) {
 	switch x := v.(type) {
 	case map[string]any:
 		return false, "object-valued-filter-target"
@@ -455,11 +471,19 @@ func formatOK(f rFormat, c *cred) (bool, unspecified) {
 
 // ---- descriptor --------------------------------------------------------------------------------
 
+// A descriptor is a conjunction: a field (or the format) the credential certainly fails decides "no" even when a filter
+// without `type` (undecided on its satisfied side, see rFilter.sat) is among the other fields. The remaining undecided
+// classes (pe answers those with an error) keep deciding in field order, as before.
 func (d *rDef) satisfies(x *rDesc, c *cred) (bool, unspecified, error) {
+	var open unspecified
 	for i := range x.Fields {
 		fr := x.Fields[i].eval(c.view)
 		if fr.pathError != nil {
 			return false, "", fr.pathError
+		}
+		if fr.unspec == typelessUndecided {
+			open = fr.unspec
+			continue
 		}
 		if fr.unspec != "" {
 			return false, fr.unspec, nil
@@ -477,8 +501,13 @@ func (d *rDef) satisfies(x *rDesc, c *cred) (bool, unspecified, error) {
 			return false, "", nil
 		}
 	}
+	if open != "" {
+		return false, open, nil
+	}
 	return true, "", nil
 }
+
+const typelessUndecided unspecified = "filter-without-type"
 
 func (d *rDef) desc(id string) *rDesc {
 	for _, x := range d.Descs {
